@@ -20,7 +20,7 @@ CLAIMED = {
     "C04": ("proof", "deterministic clause: the real _compute_population_correction returns the smallest calibration score whose baseline-weighted covered share exceeds q (sorted prefix sums), the interval is the raw pair widened by ONE correction on both sides, un-normalised, floored, rounded; split disjoint/exhaustive; own correction per estimand", "prefix-sum contract of sort_values+cumsum (Lean lemmas), np.quantile contract; the probabilistic coverage clause is NOT decided (see DESIGN section 5)", TECH + "; ghost instantiation of prefix-sum lemma instances", "DESIGN 4 C04"),
     "C08": ("proof", "get_national_summary_estimates in all four modes: size check iff, lower <= pred <= upper, threshold mode within [base, base+total weight] and pred = base + weights of positive-margin contests, called contests contribute no uncertainty; typestate: only top-level aggregate calls write the state it reads (proved on the real aggregate functions for four aggregate lists)", "A-REAL; dictionary keys = contest names (precondition); None-weights variant not covered; argsort/gather contracts", TECH, "DESIGN 4 C08"),
     "C13": ("proof", "schema of the merged unit/state tables for 1..3 estimands and non-ascending levels (key/category columns once, every level's column carries that level's interval), own conformal correction per estimand on one model object", "cross-request independence of VALUES for bootstrap/gaussian is not covered by a proof here (see DESIGN)", TECH, "DESIGN 4 C13"),
-    "C15": ("other", "mixed: the unit-level gaussian formula (quantile at (3+alpha)/4, sqrt(var_inflate+1)*sigma, floors, whole numbers) is proved from the real AST; which group's calibration statistics are used (own if >= min(10, all), else state, else all), one finite interval per outstanding group on its own row, the aggregate formula and floors are checked by an enumerated small-scope bounded stand-in of the real functions against an oracle written from the statement", "A-SIGMA; the recursive fit cascade and the matching loop are outside the frame theory (rows at mixed aggregation levels, iloc/indicator tricks): bounded only, never counted as proved", "contract-based deductive verification for the formula; bounded stand-in (exhaustive small scope, real code vs statement oracle) for the cascade", "DESIGN 4 C15"),
+    "C15": ("proof", "proved from the real AST: GaussianModel._fit computes every group's statistics over exactly its own calibration rows; one step of the fallback cascade of GaussianModel.fit (threshold min(10, #cal), exact row sets of the two recursive calls) and, with the recursive calls under the same contract, the multi-level result table of the statement (induction over the recursion); GaussianElectionModel.get_aggregate_prediction_intervals with fit under that contract: exactly one model row per group with outstanding units from the right level (own / state / all), the interval formula (quantile at (3+alpha)/4, sigma*sqrt(W2+kappa*W^2)), floors, whole numbers, finiteness; plus the unit-level formula", "A-WM / A-SIGMA (weighted median and bootstrapped scale are functions of the multiset of their rows), norm.ppf = loc + scale*z_q, sqrt/round axiomatised; termination of the recursion not proved; interval formulas proved as generalisations (products as AC uninterpreted functions); a bounded end-to-end companion on real floats is kept and not counted as proved", TECH, "DESIGN 0.4 / 4 C15"),
     "C16": ("exploration", "bounded stand-in: the real Featurizer on every assignment of 3 levels to <= 4/5 units, split points, second fixed effect, selected-level subsets, features, per-state copies, checked clause by clause; plus PROVED call-site alignment (training / calibration / non-reporting slices) and the no-covariate configuration executed symbolically", "dynamic column sets are outside the executable subset: content clauses are not proved", "bounded stand-in on the real class (exploration) + contract-based proofs of the call sites", "DESIGN 4 C16"),
     "C17": ("proof", "the nested compute_estimated_margin executed from the real AST: accepted histories are monotone with possible batches only, every whole percent 0..latest, imputed margin in [-1,1] (convex combination), first margin before the first observation, 0 at 0%, correction = final - imputed; discarded histories return 101 rows of missing values with the error type", "A-REAL (the bounded companion runs float64 AND int64 histories on the real code: it found the integer truncation defect F13, now fixed), V2, numpy positional contracts, lemma mono_of_succ", TECH + "; ghost instantiation, generalisation of nonlinear subterms", "DESIGN 4 C17"),
     "C10": ("proof", "self-composition on the real code: changing the count of an outstanding / blocklisted / zero-baseline / unexpected unit leaves every other unit's frame, category, prediction and interval unchanged (get_units, conformal unit predictions and intervals with the solver / featurizer / outlier model as functions of their requests), group sums change only in the unit's own groups, historical results below the threshold are hidden; bounded pairs of real runs for all three estimators (not counted as proved)", "A-QR / Featurizer / outlier model are functions of their inputs; extrapolation and presidential-correction paths not verified; bootstrap and gaussian estimators only through the bounded companions", TECH + "; relational (two-state) VCs", "DESIGN 4 C10"),
